@@ -98,8 +98,9 @@ package eio
 //@   callsite ServerTransport.ServeHTTP
 //@     update served = served + 1
 //@   ensures closedseen ==> h503 == 1 && errs == 0 && hs == 0 && ups == 0 && served == 0 [C17.serve.closed]
-//@   ensures !closedseen && r.ProtoMajor != 3 && (verr || ver != 4) ==> errs == 1 && lastcode == ErrorUnsupportedProtocolVersion && hs == 0 && ups == 0 && served == 0 [C17.serve.version]
-//@   ensures !closedseen && !(r.ProtoMajor != 3 && (verr || ver != 4)) && !sidempty && !getok ==> errs == 1 && lastcode == ErrorUnknownSID && hs == 0 && ups == 0 && served == 0 [C17.serve.sid]
+//@   ensures !closedseen && old(r.ProtoMajor) != 3 && (!atoiok(qget(uquery(old(r.URL)), "EIO")) || atoiv(qget(uquery(old(r.URL)), "EIO")) != 4) ==> errs == 1 && lastcode == ErrorUnsupportedProtocolVersion && hs == 0 && ups == 0 && served == 0 [C17.serve.version]
+//@   ensures !closedseen && !(old(r.ProtoMajor) != 3 && (!atoiok(qget(uquery(old(r.URL)), "EIO")) || atoiv(qget(uquery(old(r.URL)), "EIO")) != 4)) && qget(uquery(old(r.URL)), "sid") != "" && !getok ==> errs == 1 && lastcode == ErrorUnknownSID && hs == 0 && ups == 0 && served == 0 [C17.serve.sid]
+//@   ensures !closedseen && qget(uquery(old(r.URL)), "sid") != "" ==> hs == 0 [C17.serve.sid.nohandshake]
 //@   ensures hs + ups + served + errs + h503 <= 1 [C17.serve.one]
 
 //@ func (*Server).handleHandshake
